@@ -216,7 +216,7 @@ func genChildStep(r *Rng, saID int) Step {
 	switch r.Intn(6) {
 	case 0:
 	case 1:
-		st.Nonce = r.Bytes(Pick(r, 1, 16, 32, 64, 256, 512))
+		st.Nonce = r.Bytes(Pick(r, 1, 16, 32, 64, 256, 512, 513, 768, 1024))
 	default:
 		st.Nonce = r.Bytes(r.Range(1, 80))
 	}
